@@ -432,7 +432,7 @@ def c19_worker(res: Result, i: int, n: int) -> None:
     # part 3
     sigs: set = set()
     lines: set = set()
-    schedules(res, i, n, 2400 if quick else 160000, sigs, lines)
+    schedules(res, i, n, 3200 if quick else 240000, sigs, lines)
     res.coverage["distinct_schedule_signatures_list"] = sorted(sigs)[:0]
     res.coverage["distinct_schedule_signatures"] = len(sigs)
     res.coverage["preemption_lines"] = sorted(lines)
